@@ -264,6 +264,9 @@ func (e *Engine) preludeFull() string {
 	}
 	b.WriteString(`(declare-const str_empty Str)
 (declare-fun reftype (Int) Int)
+(declare-fun fnid (Int) Int)
+(assert (= (fnid 0) 0))
+(declare-fun capv (Int Int) Int)
 (declare-fun slen (Str) Int)
 (declare-fun sat (Str Int) Int)
 (declare-fun scat (Str Str) Str)
